@@ -59,6 +59,10 @@ Definition run (inp : list Z) : list Z :=
       match pall pspec rest with
       | Some s => eresult espec s
       | None => emalformed end
+    else if op =? 6 then
+      match pall (u <- pwunit ;; f <- pfill ;; s <- pspec ;; l <- plist pQ ;; pret (u, f, s, l)) rest with
+      | Some (u, f, s, l) => eresult (elist eQ) (rbind s (fun a => Ok (sample a l f u)))
+      | None => emalformed end
     else emalformed
   | _ => emalformed
   end.
